@@ -28,7 +28,8 @@ ASSUMPTIONS = [
     '[0.05, 0.95] is checked by the oracle only',
     'sklearn train_test_split is not modelled: the training split is read from the implementation (its size is checked)',
     'Opticom: the sum-to-one clause for all variants; option 3 completely against the model (entry points 8/9), option 2 through '
-    'the certificate opticom2_certified, for training steps within the cost cap; option 1 only through its last step',
+    'the certificate opticom2_certified, option 1 of train() through the exact model of the Garcke system (entry point 10) and the '
+    'certificate opticom1_certified, for training steps within the cost caps; option 1 of the adaptive variant only through its last step',
     'positive semi-definiteness for d >= 2: verified checker psd_check on the model specification matrix (<= 30 hats) and on the '
     'exact image of the implementation matrix (<= 9 hats); larger implementation matrices (<= 64 hats) by the Python exact '
     'elimination only, which is cross-checked against psd_check on the smaller ones',
@@ -864,6 +865,11 @@ def _step(r, case, args):
         out['observer_changed'] = changed + ['surpluses']
     saved = [g.coefficient for g in combi.scheme]
     out['coefs0'] = [float(c) for c in saved]
+    if kind == 'train' and len(r.validation_target_values) <= 80 and _garcke_cost([[int(x) for x in g.levelvector] for g in combi.scheme],
+                                                                                 len(r.validation_target_values)) <= GARCKE_CAP:
+        # the system of Opticom option 1 as the library assembles it (public method, an observer call)
+        M1, v1 = r.build_matrix_opticom(combi)
+        out['garcke'] = dict(M=_de.tolist(M1), v=_de.tolist(v1), lam=float(r.regularization_opticom))
     if len(r.validation_target_values) <= 80:
         out['val_data'] = _de.tolist(r.validation_data); out['val_y'] = _de.tolist(r.validation_target_values)
     opt = {}
@@ -1271,6 +1277,66 @@ def _units_of_step(chk, c, rep, r):
     return us
 
 
+GARCKE_CAP = 1500
+
+
+def _garcke_cost(scheme, nv):
+    """size of the exact evaluation of the Garcke system: pairs of component grids times pairs of points of the joint grid"""
+    cost = 0
+    for a in range(len(scheme)):
+        for b in range(a, len(scheme)):
+            n = 1
+            for x, y_ in zip(scheme[a], scheme[b]):
+                n *= 2 ** max(x, y_) - 1
+            cost += n * (n + 1) // 2 * len(scheme[a]) ** 2 + nv
+    return cost
+
+
+def _garcke_request(c, r):
+    if c['kind'] != 'train' or 'garcke' not in r or 'val_data' not in r:
+        return None
+    g = r['garcke']
+    raw1 = []
+    o1 = r['opticom'][1]
+    M = fr(g['M']); v = fr(g['v']); n = len(v)
+    if o1[0] == 'ok' and all(math.isfinite(x) for x in o1[1]) and o1[1] != r['coefs0']:
+        cp = fr(o1[1])
+        Mc = [sum((M[i][j] * cp[j] for j in range(n)), F(0)) for i in range(n)]
+        gg = [sum((M[k][i] * Mc[k] for k in range(n)), F(0)) for i in range(n)]
+        b = [sum((M[k][i] * v[k] for k in range(n)), F(0)) for i in range(n)]
+        den = sum((x * y_ for x, y_ in zip(gg, b)), F(0))
+        if den != 0:
+            sc = F(float(sum((x * x for x in b), F(0)) / den))
+            raw1 = [F(float(sc * x)) for x in cp]
+    lvs = r['scheme']
+    return 10, [lvs, [fr(r['surpluses'][_lvkey(lv)]) for lv in lvs], fr(r['val_data']), sx.rat(g['lam']), raw1, TOL_RES], bool(raw1)
+
+
+def _check_garcke_model(chk, c, rep, r, req, res):
+    if sx.is_err(res) or isinstance(res, tuple):
+        chk.violation('corr:C20/model', 'model-rejects', dict(obs='garcke'), rep, str(res)[:300], failing_input=False)
+        return False
+    M_m, v_m, cert = qmat(res[0]), [sx.q(x) for x in res[1]], res[2]
+    g = r['garcke']
+    top = float(max([abs(x) for row in M_m for x in row] + [F(1, 10 ** 300)]))
+    okM = mat_close(fr(g['M']), M_m, 1e-9, 1e-12 * top)
+    okv = mat_close([fr(g['v'])], [v_m], 1e-9, 1e-12 * top)
+    chk.count('opticom1-system-checked(%s)' % ('regularised' if g['lam'] != 0 else 'lambda=0'))
+    if not (okM and okv):
+        chk.violation('corr:C20/opticom1', 'garcke-system-differs', dict(option=1, matrix=okM, vector=okv, regularised=g['lam'] != 0), rep,
+                      dict(impl_matrix=str(g['M'])[:300], model_matrix=str([[float(x) for x in row] for row in M_m])[:300],
+                           impl_vector=str(g['v'])[:200], model_vector=str([float(x) for x in v_m])[:200]), failing_input=False)
+        return False
+    if req[2]:
+        if cert != 1:
+            chk.violation('corr:C20/opticom1', 'opticom1-not-least-squares', dict(option=1), rep,
+                          dict(impl=r['opticom'][1][1], detail='the returned coefficients are not the normalised least-squares solution '
+                               'of the Garcke system (certificate rejected by residual_ok_floor)'), failing_input=False)
+            return False
+        chk.count('opticom1-certified')
+    return True
+
+
 def _opticom_request(c, r):
     """model request for the coefficient optimisation of one training step (None when too expensive / not observable)"""
     if 'val_data' not in r or not r['scheme'] or len(r['scheme']) > 12:
@@ -1505,11 +1571,23 @@ def process(chk, cases, verbose=False):
     # ---- model calls (three tiers by cost)
     mc, slot = [], []
     opt_reqs = []
+    garcke_reqs = []
+    garcke_budget = chk.n(5000, 200000)
     opt_budget = chk.n(10000, 200000)
     for (i, s, rep, sst, sr), us in zip(steps, step_units):
         if us is None or s['kind'] not in ('train', 'train-adaptive'):
             continue
         req = _opticom_request(s, sr)
+        greq = _garcke_request(s, sr)
+        if greq is not None:
+            garcke_budget -= _garcke_cost(sr['scheme'], len(sr['val_y'])) if sr['garcke']['lam'] != 0 else 50
+            if garcke_budget < 0:
+                chk.count('opticom1-model-skipped(budget of the run used up)')
+                greq = None
+        if greq is not None:
+            gh = {}
+            garcke_reqs.append((s, rep, sr, greq, gh))
+            mc.append((greq[0], greq[1])); slot.append((gh, 'res'))
         if req is None:
             chk.count('opticom-model-skipped(cost or not observable)')
             continue
@@ -1558,6 +1636,8 @@ def process(chk, cases, verbose=False):
     opt_ok = {}
     for (s_, rep_, sr_, req, holder) in opt_reqs:
         opt_ok[id(sr_)] = _check_opticom_model(chk, s_, rep_, sr_, req, holder.get('res'))
+    for (s_, rep_, sr_, greq, gh) in garcke_reqs:
+        opt_ok[id(sr_)] = _check_garcke_model(chk, s_, rep_, sr_, greq, gh.get('res')) and opt_ok.get(id(sr_), True)
     for (i, s, rep, sst, sr), us in zip(steps, step_units):
         if us is None:
             continue
